@@ -50,7 +50,7 @@ func TestMain(m *testing.M) {
 	core.DeclareFaults("msg-late", "msg-dup", "msg-reorder", "keyset-skew-consumer-older", "keyset-skew-consumer-newer",
 		"foreign-inject", "foreign-prefix-collision", "foreign-id-collision", "rng-id-zero", "rng-id-max", "rng-id-redraw", "rng-id-adjacent",
 		"same-material-twice", "same-material-other-id", "raw-output-looks-prefixed", "readd-deleted-id-other-material")
-	core.DeclareProbes("start-parsed-with-dead-keys", "id-zero-live", "id-max-live", "mixed-key-types", "mixed-variants", "primary-not-first",
+	core.DeclareProbes("legacy-wire-prefix-on-a-key-type-without-legacy-variant", "start-parsed-with-dead-keys", "id-zero-live", "id-max-live", "mixed-key-types", "mixed-variants", "primary-not-first",
 		"crunchy-and-legacy-in-keyset", "stub-legacy-adapter-produce", "stub-legacy-adapter-accept", "manager-reloaded",
 		"accept-primary", "accept-nonprimary", "accept-noprefix", "accept-noprefix-looks-prefixed", "accept-any-of-several",
 		"reject-disabled", "reject-destroyed", "reject-removed", "reject-not-yet", "reject-same-material-other-id", "reject-foreign",
@@ -671,7 +671,28 @@ func (w *world) opAdd(s *side) {
 		if stub {
 			pt = stubkm.PrefixType(variant)
 		}
-		k, rerr = rekey(src.key, pt, targetID)
+		// The wire format knows a fourth prefix type, LEGACY (prefix 0x00 || ID like CRUNCHY), which the key types without
+		// a LEGACY variant of their own may still meet in a stored keyset: for those the material is sometimes filed under
+		// LEGACY. A key type that refuses the type altogether gets CRUNCHY after all; one that takes it must behave like
+		// a key with the 0x00 || ID prefix whatever its parser made of it.
+		legacyProto := false
+		if !stub && pt == tinkpb.OutputPrefixType_CRUNCHY && rapid.IntRange(0, 1).Draw(t, "legacyOnTheWire") == 1 {
+			hasLegacy := false
+			for _, fe := range familyOf[base] {
+				if fe.Variant == catalog.VLegacy {
+					hasLegacy = true
+				}
+			}
+			if !hasLegacy {
+				if lk, lerr := rekey(src.key, tinkpb.OutputPrefixType_LEGACY, targetID); lerr == nil {
+					k, legacyProto = lk, true
+					r.Probe("legacy-wire-prefix-on-a-key-type-without-legacy-variant")
+				}
+			}
+		}
+		if !legacyProto {
+			k, rerr = rekey(src.key, pt, targetID)
+		}
 		if rerr != nil {
 			if catalog.Pooled(familyEntry(base, src.variant)) {
 				// RSA-SSA-PSS keys with salt length 0 cannot be serialized by the library
@@ -680,7 +701,10 @@ func (w *world) opAdd(s *side) {
 			}
 			t.Fatalf("harness: rekey %s to %s: %v", src, variant, rerr)
 		}
-		if !stub && !k.Parameters().Equal(familyEntry(base, variant).Params) {
+		if legacyProto && !k.Parameters().Equal(familyEntry(base, variant).Params) {
+			core.CountGlobal("legacy-wire-prefix-parsed-into-other-parameters")
+		}
+		if !stub && !legacyProto && !k.Parameters().Equal(familyEntry(base, variant).Params) {
 			t.Fatalf("harness: rekey %s to %s gave other parameters", src, variant)
 		}
 		mat = src.mat
